@@ -119,6 +119,7 @@ public:
 
     size_t generateHash();
     void doUpdateComponentHash(const ComponentPtr &component, std::string &idsString);
+    bool importSourceListed(const ItemList &idList, const std::string &id, const ImportSourcePtr &importSource);
 
     void addIssueNoModel();
     void addIssueInvalidArgument(CellmlElementType type);
@@ -159,6 +160,19 @@ inline bool equals(const std::weak_ptr<T> &t, const std::weak_ptr<U> &u)
     return !t.owner_before(u) && !u.owner_before(t);
 }
 
+bool Annotator::AnnotatorImpl::importSourceListed(const ItemList &idList, const std::string &id, const ImportSourcePtr &importSource)
+{
+    // An import source shared by several imported entities is one item, not one item per entity.
+    auto range = idList.equal_range(id);
+    for (auto it = range.first; it != range.second; ++it) {
+        if ((it->second->type() == CellmlElementType::IMPORT)
+            && (convertToShared(it->second)->importSource() == importSource)) {
+            return true;
+        }
+    }
+    return false;
+}
+
 void Annotator::AnnotatorImpl::listComponentIdsAndItems(const ComponentPtr &component, ItemList &idList)
 {
     std::string id = component->id();
@@ -171,7 +185,7 @@ void Annotator::AnnotatorImpl::listComponentIdsAndItems(const ComponentPtr &comp
     ImportSourcePtr importSource = component->importSource();
     if (importSource != nullptr) {
         id = importSource->id();
-        if (!id.empty()) {
+        if (!id.empty() && !importSourceListed(idList, id, importSource)) {
             auto entry = AnyCellmlElement::AnyCellmlElementImpl::create();
             entry->mPimpl->setImportSource(importSource);
             idList.insert(std::make_pair(id, convertToWeak(entry)));
@@ -321,7 +335,7 @@ ItemList Annotator::AnnotatorImpl::listIdsAndItems(const ModelPtr &model)
         if (units->isImport()) {
             ImportSourcePtr importSource = units->importSource();
             id = importSource->id();
-            if (!id.empty()) {
+            if (!id.empty() && !importSourceListed(idList, id, importSource)) {
                 auto entry = AnyCellmlElement::AnyCellmlElementImpl::create();
                 entry->mPimpl->setImportSource(importSource);
                 idList.insert(std::make_pair(id, convertToWeak(entry)));
